@@ -252,3 +252,9 @@ PROPS["C18"]["level_text"] += (" Props/C18b.lean on Model/Nest (trees of any dep
 PROPS["C18"]["assumptions"] = list(PROPS["C18"].get("assumptions", [])) + [
     "Model/Nest lays a display out as open / gap / (child gap)* / close with one-token gaps; real token widths differ but the nesting and ordering of ranges is what the proof uses",
     "the stretches of Model/Nest are a superset of the ranges generic_sequence_update really replaces (it skips untouched stretches)"]
+
+PROPS["C14"]["engines"].append(("reeval", {"quick": 800, "thorough": 20000}))
+PROPS["C14"]["rule"] += (" ; plus one call site snapshot(V[0]) / snapshot([V[0], 7]) in a helper or lambda, comparisons interleaved with assignments to V[0] (other value, other type), "
+                         "one or two tests, every flag set (harness/engines/reeval.py)")
+ENGINES["reeval"] = ("the hand-written argument of one call evaluates to a different value later: result of every comparison and categories vs Model/Table.lean (`snap` re-evaluation); "
+                     "oracle: UsageError exactly when the argument differs from its first value")
